@@ -489,10 +489,15 @@ def run_S6(chk, rule="S6", prefixes=("yastn.tensor", "yastn.initialize", "yastn.
     for f in prog.all_funcs():
         if not f.module.name.startswith(prefixes):
             continue
+        inl = None
         for x in ast.walk(f.node):
             if not (isinstance(x, ast.Subscript) and isinstance(x.slice, ast.Slice) and x.slice.step is None and x.slice.upper is not None):
                 continue
+            if inl is None:
+                inl = A.Inliner(f.node, depth=3, stop={"nsym", "NSYM"})
             lo, up = x.slice.lower, x.slice.upper
+            lo = inl.expand(lo) if lo is not None else None      # `start = axis * nsym; x[start:start + nsym]`
+            up = inl.expand(up)
             try:
                 pu = _nsym_poly(up)
                 pl = _nsym_poly(lo) if lo is not None else Rat(Poly.const(0))
